@@ -44,6 +44,8 @@ func init() {
 			// reference decoding of the reply to its own request)
 			b = append(b, Batch{Mode: "hammer", RunAs: "C08", Keys: []string{"crossed-reply", "panic"}, Timeout: 30 * time.Minute, Procs: 8})
 			b = append(b, Batch{Mode: "hammer", RunAs: "C08", Keys: []string{"crossed-reply", "panic"}, Race: true, Timeout: 30 * time.Minute, Procs: 8}) // + the race detector on the receive path
+			// the one operation whose replies come from many controllers: GetDevices (the hooked layer of C11's workload)
+			b = append(b, Batch{Mode: "hook", RunAs: "C11", Keys: []string{"hook:", "noise-fails-call", "panic"}, Timeout: 20 * time.Minute})
 			if tier == "thorough" {
 				return append(b, zoneBatches(0, "tz", 20*time.Minute)...)
 			}
@@ -224,7 +226,9 @@ func init() {
 		Plan: func(tier string) []Batch {
 			b := same(n(tier, 4, 8), Batch{Mode: "hook", Timeout: 20 * time.Minute})
 			b = append(b, same(n(tier, 1, 3), Batch{Mode: "loopback", Timeout: 30 * time.Minute, Procs: 8})...)
-			return append(b, Batch{Mode: "race", Race: true, Timeout: 30 * time.Minute, Procs: 8})
+			b = append(b, Batch{Mode: "race", Race: true, Timeout: 30 * time.Minute, Procs: 8})
+			// a discovery after a call that could not open its socket on a fixed bind port (port-queue phase of C09's workload)
+			return append(b, Batch{Mode: "port-queue", RunAs: "C09", Keys: []string{"hang", "panic"}, Timeout: 20 * time.Minute, Procs: 8})
 		}}
 }
 
